@@ -93,6 +93,8 @@ impl LocationListTable {
         unit_offsets: Option<&UnitOffsets>,
     ) -> Result<LocationListOffsets> {
         let address_size = encoding.address_size;
+        // A location that begins with this value would be read as a base address selection.
+        let marker = !0 >> (64 - address_size * 8);
         let mut offsets = Vec::new();
         for loc_list in self.locations.iter() {
             let mut have_base_address = have_unit_base_address;
@@ -103,7 +105,6 @@ impl LocationListTable {
                 // than required, but still seems reasonable.
                 match *loc {
                     Location::BaseAddress { address } => {
-                        let marker = !0 >> (64 - address_size * 8);
                         w.write_udata(marker, address_size)?;
                         w.write_address(address, address_size)?;
                         have_base_address = true;
@@ -113,7 +114,7 @@ impl LocationListTable {
                         end,
                         ref data,
                     } => {
-                        if begin == end {
+                        if begin == end || begin == marker {
                             return Err(Error::InvalidRange);
                         }
                         if !have_base_address {
@@ -128,7 +129,7 @@ impl LocationListTable {
                         end,
                         ref data,
                     } => {
-                        if begin == end {
+                        if begin == end || begin == Address::Constant(marker) {
                             return Err(Error::InvalidRange);
                         }
                         if have_base_address {
@@ -155,7 +156,7 @@ impl LocationListTable {
                                     .ok_or(Error::InvalidRange)?,
                             },
                         };
-                        if begin == end {
+                        if begin == end || begin == Address::Constant(marker) {
                             return Err(Error::InvalidRange);
                         }
                         if have_base_address {
